@@ -1,4 +1,5 @@
-(* C07 — executable model of the per-connection task of litep2p's TCP transport
+(* C07 — executable model of the per-connection task of litep2p's transports (written after the TCP
+   loop; the WebSocket and QUIC loops behave the same and have their own exit tables, see below)
    (src/transport/tcp/connection.rs: start / handle_yamux_substream / handle_negotiated_substream /
    handle_protocol_command), of the reports it makes through its ProtocolSet
    (src/protocol/protocol_set.rs: report_connection_established / report_connection_closed /
@@ -229,6 +230,71 @@ Definition cstep_unfixed (t : task) (e : cev) : task * list note :=
           (if ok then t else mkTask (alive t) (mgr_up t) (Some (0%nat, 12%nat)), ns)
       | _ => cstep t e
       end
+  end.
+
+(* ------------------------------------------------------------------------------------------ *)
+(* the WebSocket and QUIC loops (src/transport/{websocket,quic}/connection.rs)                 *)
+
+(* After their `fix:` commit these loops behave like the TCP loop (`cstep` is the model of all
+   three), but they are written as ONE function `start` whose `tokio::select!` arms contain the
+   handlers inline: an exit of the loop is a single site, not a (handler, start) pair, and the
+   command arms leave through `return report_connection_closed(..).await` instead of `?` +
+   `Ok(true)`. QUIC has no separate "connection ended" arm: `accept_bi()` fails for both an error
+   and a close. Each loop therefore has its own exit table — which must equal
+   coq/gen/ConnExits.v (Proofs.ws_exits_match / quic_exits_match) — and its own map from the
+   exiting transitions of the model to the sites.
+   First column: the select! branch, 0 connection 1 pending_substreams 2 protocol commands. *)
+Definition ws_model_exits : list site :=
+  [ (* branch 0, arm Some(Ok(stream)), no permit *)
+    (0, (0, (1, true)));   (* 0: report_connection_closed(..).await?  *)
+    (0, (1, (1, true)));   (* 1: return Ok(())                        *)
+    (* arm Some(Err(error)) *)
+    (0, (0, (1, true)));   (* 2 *)
+    (0, (1, (1, true)));   (* 3 *)
+    (* arm None *)
+    (0, (0, (1, true)));   (* 4 *)
+    (0, (1, (1, true)));   (* 5 *)
+    (* branch 1: no exit *)
+    (* branch 2, arm Some(ForceClose) *)
+    (2, (1, (1, true)));   (* 6: return report_connection_closed(..).await *)
+    (* arm None *)
+    (2, (1, (1, true)))    (* 7 *)
+  ].
+
+Definition quic_model_exits : list site :=
+  [ (* branch 0, arm Ok((send, recv)), no permit *)
+    (0, (1, (1, true)));   (* 0: return report_connection_closed(..).await *)
+    (* arm Err(error): the connection failed or ended *)
+    (0, (1, (1, true)));   (* 1 *)
+    (* branch 1: no exit *)
+    (* branch 2, arm None *)
+    (2, (1, (1, true)));   (* 2 *)
+    (* arm Some(ForceClose) *)
+    (2, (1, (1, true)))    (* 3 *)
+  ].
+
+Definition branch_of (e : cev) : N :=
+  match e with EYamux _ => 0 | ENeg _ => 1 | ECmd _ => 2 | _ => 9 end.
+
+(* the site through which the loop leaves when it handles e in state t (None: it carries on) *)
+Definition ws_site (t : task) (e : cev) : option nat :=
+  let ok := snd (report_closed (alive t) (mgr_up t)) in
+  match e with
+  | EYamux (YSub false) => Some (if ok then 1 else 0)%nat
+  | EYamux YErr => Some (if ok then 3 else 2)%nat
+  | EYamux YEof => Some (if ok then 5 else 4)%nat
+  | ECmd CForce => Some 6%nat
+  | ECmd CNone => Some 7%nat
+  | _ => None
+  end.
+
+Definition quic_site (t : task) (e : cev) : option nat :=
+  match e with
+  | EYamux (YSub false) => Some 0%nat
+  | EYamux YErr | EYamux YEof => Some 1%nat
+  | ECmd CNone => Some 2%nat
+  | ECmd CForce => Some 3%nat
+  | _ => None
   end.
 
 (* ------------------------------------------------------------------------------------------ *)
